@@ -89,7 +89,15 @@ def t_iterators_once():
     for v in src:
         total += v
     again = sum(src)
-    return a, b, c, d, f, g, h, i, r1, r2, rest, s1, s2, t1, t2, short, pw, total, again
+    it2 = iter([5, 6])
+    n1, n2, n3 = next(it2), next(it2), next(it2, "end")
+    first_even = next(v for v in [1, 3, 4, 6] if v % 2 == 0)
+    try:
+        next(iter([]))
+        stop = "no"
+    except StopIteration:
+        stop = "StopIteration"
+    return a, b, c, d, f, g, h, i, r1, r2, rest, s1, s2, t1, t2, short, pw, total, again, n1, n2, n3, first_even, stop
 
 
 def t_operators_on_bool():
